@@ -357,6 +357,17 @@ func (rd *HandlingDataManager) handleApplyFlows() func(http.ResponseWriter, *htt
 		}
 
 		fileSystemOperations := config.NewFileSystemOperation()
+		// The directories are wiped before the payload is written, so the previous
+		// configuration is kept aside and put back if any later step fails.
+		if err := fileSystemOperations.Backup(); err != nil {
+			handleError(writer, "Failed to backup", http.StatusInternalServerError, err)
+			return
+		}
+		restore := func() {
+			if err := fileSystemOperations.Restore(); err != nil {
+				log.Error().Err(err).Msg("Failed to restore file system operations")
+			}
+		}
 
 		if err := incomingData.ParsePayload(); err != nil {
 			handleError(writer, "Failed to parse incoming data", http.StatusBadRequest, err)
@@ -365,17 +376,23 @@ func (rd *HandlingDataManager) handleApplyFlows() func(http.ResponseWriter, *htt
 
 		if err := incomingData.CleanUpGatewayDirectories(fileSystemOperations); err != nil {
 			handleError(writer, "Failed to clean up", http.StatusInternalServerError, err)
+			restore()
 			return
 		}
 
 		if err := incomingData.SavePayloadContentToDisk(fileSystemOperations); err != nil {
 			handleError(writer, "Failed to save payload content to disk",
 				http.StatusInternalServerError, err)
+			restore()
 			return
 		}
 
 		if err := rd.reloadFlows(); err != nil {
 			handleError(writer, err.Error(), http.StatusUnprocessableEntity, err)
+			restore()
+			if err = rd.reloadFlows(); err != nil {
+				log.Error().Err(err).Msg("Failed to reload flows after restore")
+			}
 			return
 		}
 
